@@ -122,6 +122,11 @@ func c02(tier string) []*explore.Scenario {
 		}
 		out = append(out, c02OneT([]streamCase{{"SStream", "sendall", "burst", 1, 2, 2000}, {"SStream", "sendall", "burst", 1, 2, 2000}}, 64, 1, ser))
 	}
+	// messages that encode to zero bytes (an empty body is not an open)
+	for _, c := range []streamCase{{"Bidi", "sendall", "echo", 2, 0, -1}, {"Bidi", "sendall", "retearly", 2, 0, -1}, {"Bidi", "concurrent", "retearly", 2, 1, -1},
+		{"CStream", "sendall", "collect", 2, 0, -1}, {"Bidi", "sendall", "retearly", 3, 0, -1}} {
+		out = append(out, c02OneT([]streamCase{c}, 64, bound, false), c02OneT([]streamCase{c}, 0, bound, true))
+	}
 	// two streams multiplexed on the connection
 	two := [][]streamCase{
 		{{"Bidi", "pingpong", "echo", 1, 0, 0}, {"Bidi", "pingpong", "echo", 1, 0, 0}},
@@ -173,7 +178,7 @@ func c02OneT(cases []streamCase, capn, bound int, serialize bool) *explore.Scena
 			w := env.NewWorld()
 			env.MsgSize = 0
 			for _, c := range cases {
-				if c.size > env.MsgSize {
+				if c.size > env.MsgSize || c.size < 0 {
 					env.MsgSize = c.size
 				}
 			}
